@@ -128,7 +128,7 @@ def grep_forbidden(pid=None):
     built from (the import closure of Props.<pid>, Main, CMain).  A work file that nothing imports
     is not part of any proof and is not looked at (it caused a false alarm twice, DESIGN 14.5)."""
     hits = []
-    roots = ["Main", "CMain"] + (["Gobptree.Props." + pid] if pid else
+    roots = ["Main", "CMain"] + (["Gobptree.Props." + pid] + ["Gobptree.Props." + e for e in EXTRA_PROPS.get(pid, [])] if pid else
                                  ["Gobptree.Props.C%02d" % i for i in range(1, 13)])
     for rel in import_closure(roots):
         p = os.path.join(LEAN, rel)
@@ -139,9 +139,23 @@ def grep_forbidden(pid=None):
     return hits
 
 
+# further Props modules of a property (theorems whose proofs import Props/<pid>.lean itself)
+EXTRA_PROPS = {"C10": ["C10Log"]}
+
+
 def audit_props(pid):
-    """Elaborates Props/<pid>.lean and parses its `#print axioms` output.
+    """Elaborates Props/<pid>.lean (and its extra modules) and parses the `#print axioms` output.
     Returns dict(theorems={name: [axioms]}, ok=bool, log=str)."""
+    res = audit_props1(pid)
+    for extra in EXTRA_PROPS.get(pid, []):
+        r2 = audit_props1(extra)
+        res["theorems"].update(r2["theorems"])
+        res["ok"] = res["ok"] and r2["ok"]
+        res["log"] += r2["log"]
+    return res
+
+
+def audit_props1(pid):
     f = os.path.join("Gobptree", "Props", pid + ".lean")
     if not os.path.exists(os.path.join(LEAN, f)):
         return dict(theorems={}, ok=False, log="no Props file for " + pid)
@@ -171,7 +185,7 @@ def proof_step(pid, bindir, extra_targets=()):
             target = os.path.join(LEAN, "Gobptree", "Generated", "CheckOrder.lean")
             if not os.path.exists(target):
                 shutil.copy(os.path.join(LEAN, "Gobptree", "Generated", "CheckOrder.default"), target)
-        ok, log = lake_build(["Gobptree.Props." + pid, "model", "cmodel"] + list(extra_targets))
+        ok, log = lake_build(["Gobptree.Props." + pid, "model", "cmodel"] + ["Gobptree.Props." + e for e in EXTRA_PROPS.get(pid, [])] + list(extra_targets))
         if not ok:
             errs = [l for l in log.splitlines() if "error" in l][:12]
             problems.append("lake build failed for Props." + pid + ": " + " | ".join(errs))
